@@ -12,6 +12,10 @@ Tie W2, EXHAUSTIVE over cut points:
       choose and arbitrary recorded dimension counts for empty indexes (C12_torn_any_writer); the file is
       identified with the specification's `layout_d d0 iw rw` by a checksum computed on both sides
       (chk_c12_layout).
+  (S) larger files from the C10 'scale' generator (short and long row-id arrays, up to ~70 000 ids, in every dict
+      order): cut at a SAMPLE of points - every k up to the end of the row-id lengths table, the last 64 bytes, around
+      every boundary between two row-id arrays, 48 random points (chk_c12_sample; the ~70 000-id files are judged by the
+      oracle only).  Exhaustiveness over cut points is claimed for the small files of (s), (w), (t) only.
   (t) REAL torn writes, for a sample of the dicts: the real save runs in a forked child under
       RLIMIT_FSIZE = k for every k < len(file) - the write that crosses byte k fails with EFBIG (a full disk)
       or the child is killed by SIGXFSZ (a killed process), alternately; whatever is left on disk is loaded by
@@ -90,6 +94,41 @@ def load_left(impl):
         return 0, shown
 
 
+def cut_codes_at(impl, data, cuts):
+    """Like cut_codes, at the given cut points only (any order): -> ([(k, code)], accepted)."""
+    out, accepted = [], []
+    with open(impl.path, "wb") as f:
+        f.write(data)
+    for k in sorted(set(cuts), reverse=True):
+        os.truncate(impl.path, k)
+        code, shown = load_left(impl)
+        out.append((k, code))
+        if code == 0:
+            accepted.append((k, shown))
+    out.reverse()
+    return out, accepted
+
+
+def sample_cuts(rng, entries, common, data, n_random=48):
+    """Cut points for a larger file: EVERY k up to the end of the row-id lengths table, the last 64 bytes, every boundary
+    between two row-id arrays (and its neighbours), and a random sample in between."""
+    iw = c10.narrowest(c10.max_word(entries, common))
+    arity = len(entries[0][0]) if entries else 0
+    rows_start = 16 + 1 + 4 + 1 + iw + len(entries) * arity * iw + 1 + 4 * len(entries)
+    n = len(data)
+    cuts = set(range(min(rows_start + 1, n)))
+    cuts.update(range(max(0, n - 64), n))
+    off = rows_start
+    for _, v in entries:
+        for d in (-1, 0, 1, 4):
+            if 0 <= off + d < n:
+                cuts.add(off + d)
+        off += 4 * len(v)
+    for _ in range(n_random):
+        cuts.add(rng.randrange(n))
+    return sorted(cuts), rows_start
+
+
 def reachable(impl, rng, n):
     """(entries, common) of indexes the library builds itself."""
     out = []
@@ -113,7 +152,9 @@ def other_widths(rng, entries, common, how_many):
 def run(ctx):
     ctx.rule = ("files: (s) written by the real save for C10-generator dicts (arity 1..4, 0..6 entries, coordinate x common magnitude classes, "
                 "boundary row ids) and for indexes built by iindex.from_array; (w) written by a struct-based encoder at admissible word sizes "
-                "the saver does not choose (and any recorded dimension count for an empty index); a case is (file, cut point k); EVERY k < len(file) "
+                "the saver does not choose (and any recorded dimension count for an empty index); (S) larger files of the C10 'scale' generator (2..8 entries mixing short 0..10 and long 64..600 / 63,64,65 / 255,256,257 / "
+                "~70 000-id row-id arrays in every dict order) cut at a SAMPLE of points (whole header + index + lengths region, last 64 bytes, array boundaries, 48 random); "
+                "a case is (file, cut point k); for (s), (w) EVERY k < len(file) "
                 "is run: the file is truncated to k bytes and loaded by the real IndxIO.load; distinct per (file bytes, k)")
     ctx.trusted = list(core.STD_TRUSTED) + c10.TRUSTED + [
         "a write cut short at byte k leaves the first k bytes of the complete file (save writes strictly sequentially; modelled as firstn k)"]
@@ -126,6 +167,7 @@ def run(ctx):
     bad = []
     lits_s, recs_s, lits_w, recs_w = [], [], [], []
     seen_files = {}
+    sampled_pairs = set()
     stage_hist = {}
     n_loads = 0
     longest = 0
@@ -170,6 +212,34 @@ def run(ctx):
             lits_w.append("(%s, %s, %d, %d, %d, %s, %s)" % (c10.lit_entries(entries), core.zlit(common), d0, iw, rw, core.zlit(c10.checksum(file)), core.zlist(codes)))
             recs_w.append(dict(rec, iw=iw, rw=rw, d0=d0, file_len=len(file)))
 
+    # (S) scale: larger files (long and short row-id arrays in every dict order), cut at a SAMPLE of cut points
+    lits_S, recs_S = [], []
+    scale_stats = {"files": 0, "cut_points": 0, "compared_inside_coq": 0, "longest_file_bytes": 0}
+    for entries, common, desc, in_coq in c10.gen_scale(ctx.rng, 6 if quick else 60, 1 if quick else 3):
+        try:
+            data = impl.save(entries, common)
+        except Exception:  # noqa  (C10 reports it)
+            continue
+        cuts, rows_start = sample_cuts(ctx.rng, entries, common, data)
+        kc, accepted = cut_codes_at(impl, data, cuts)
+        rec = {"entries": [[list(k), v] for k, v in entries], "common": common, "from": "scale", "stream": "S"}
+        slim = {"entries_summary": [[list(k), len(v), v[:3]] for k, v in entries], "common": common, "from": "scale", "stream": "S", "file_len": len(data)}
+        n_loads += len(kc)
+        longest = max(longest, len(data))
+        scale_stats["files"] += 1
+        scale_stats["cut_points"] += len(kc)
+        scale_stats["longest_file_bytes"] = max(scale_stats["longest_file_bytes"], len(data))
+        sampled_pairs.add((data, tuple(cuts)))
+        for _k, c in kc:
+            stage_hist[c10.STAGE.get(c, "ACCEPTED")] = stage_hist.get(c10.STAGE.get(c, "ACCEPTED"), 0) + 1
+        for k, shown in accepted:
+            bad.append(dict(rec, cut=k, file_len=len(data), file_hex=data.hex()[:4000], prefix_hex=data[:k].hex()[:4000], returned=shown,
+                            what="load of the first %d of %d bytes returned %s" % (k, len(data), shown[:160])))
+        if in_coq:
+            lits_S.append("(%s, %s, %s, [%s])" % (c10.lit_entries(entries), core.zlit(common), c10.lit_bytes(data), "; ".join("(%d, %d)" % x for x in kc)))
+            recs_S.append(slim)
+            scale_stats["compared_inside_coq"] += 1
+
     # (t) real torn writes
     torn_stats = {"files": 0, "torn_writes": 0, "left_is_prefix_of_complete_file": 0, "left_length_equals_limit": 0, "save_returned_normally_on_torn_file": 0,
                   "child_killed_by_SIGXFSZ": 0, "child_save_raised": 0}
@@ -205,21 +275,25 @@ def run(ctx):
                 not_prefix.append(dict(rec, what="what a torn write left is not a prefix of the complete file", left_hex=left.hex()[:2000], file_hex=data.hex()[:2000]))
 
     rs = core.run_cases("c12s", c10.PRELUDE, lits_s, "entries_t * Z * list Z * list Z", "chk_c12", "explain_c12", shard_size=40 if quick else 550)
+    rS = core.run_cases("c12S", c10.PRELUDE, lits_S, "entries_t * Z * list Z * list (Z * Z)", "chk_c12_sample", "explain_c12_sample", shard_size=3 if quick else 12)
     rw_ = core.run_cases("c12w", c10.PRELUDE, lits_w, "entries_t * Z * Z * Z * Z * Z * list Z", "chk_c12_layout", "explain_c12_layout", shard_size=80 if quick else 1600)
 
     ctx.evaluations = n_loads
-    ctx.coverage["distinct_nontrivial"] = sum(seen_files.values())      # distinct (file bytes, cut point) pairs
+    ctx.coverage["distinct_nontrivial"] = sum(seen_files.values()) + sum(len(c) for _, c in sampled_pairs)      # distinct (file bytes, cut point) pairs
     ctx.samples = recs_s[:2] + recs_w[:2] + recs_s[-1:]
     ctx.coverage.update({
         "exhaustive": True,
-        "exhaustive_over": "cut points: every k in 0..len(file)-1 of every generated file",
+        "exhaustive_over": "cut points: every k in 0..len(file)-1 of every file of streams (s), (w), (t) (files up to a few hundred bytes); the larger 'scale' files "
+                           "(stream S, up to ~300 KB) are cut at every k up to the end of the row-id lengths table, at the last 64 bytes, around every boundary between "
+                           "two row-id arrays and at 48 random points - NOT exhaustively",
+        "scale_stream_sampled_cuts": scale_stats,
         "files_saved_for_real": len(lits_s), "independent_writer_files": len(lits_w), "distinct_files": len(seen_files),
         "prefixes_loaded_for_real": n_loads, "longest_file_bytes": longest,
         "refusal_stage_histogram": dict(sorted(stage_hist.items())),
         "prefixes_accepted": len(bad),
         "real_torn_writes_RLIMIT_FSIZE": torn_stats, "torn_write_model_mismatches": len(not_prefix),
-        "model_disagreements": {"saver_files": len(rs.failing), "independent_writer_files": len(rw_.failing)},
-        "coq_case_shards_failed": len(rs.errors) + len(rw_.errors),
+        "model_disagreements": {"saver_files": len(rs.failing), "independent_writer_files": len(rw_.failing), "scale_files": len(rS.failing)},
+        "coq_case_shards_failed": len(rs.errors) + len(rw_.errors) + len(rS.errors),
         "tie": "W2 inside Coq: chk_c12 (real bytes = model save; for every k model load(firstn k) = LErr (torn_stage k) = observed stage class), "
                "chk_c12_layout (same on layout_d d0 iw rw files, identified by checksum)"})
 
@@ -228,23 +302,24 @@ def run(ctx):
         ctx.report("torn:prefix-accepted", "a torn file was loaded: " + bad[0]["what"],
                    {"failing_inputs": bad[:10], "count": len(bad), "files_with_an_accepted_prefix": len(set(r["file_hex"] for r in bad)),
                     "how": "file written for real, cut with os.truncate, loaded by the real IndxIO.load; the oracle is 'load raised' (no model involved)"})
-    elif rs.failing or rw_.failing or rs.errors or rw_.errors or not proof_ok or not_prefix:
+    elif rs.failing or rw_.failing or rS.failing or rs.errors or rw_.errors or rS.errors or not proof_ok or not_prefix:
         w = []
         if not_prefix:
             w.append("real torn writes (RLIMIT_FSIZE) are not modelled by `firstn k` of the complete file in %d cases: %s" % (len(not_prefix), not_prefix[0]["what"]))
         if not proof_ok:
             w.append("proof obligation no longer checks: Properties/C12.v (%s)" % ((pr["log"] or "")[-300:] if not pr["ok"] else "assumptions: %s" % pr["assumptions"]))
-        if rs.failing or rw_.failing:
-            w.append("correspondence suites c12s/c12w: %d files on which the code differs from the model (bytes written, or the stage that refuses a prefix)"
-                     % (len(rs.failing) + len(rw_.failing)))
-        errs = rs.errors + rw_.errors
+        if rs.failing or rw_.failing or rS.failing:
+            w.append("correspondence suites c12s/c12w/c12S: %d files on which the code differs from the model (bytes written, or the stage that refuses a prefix)"
+                     % (len(rs.failing) + len(rw_.failing) + len(rS.failing)))
+        errs = rs.errors + rw_.errors + rS.errors
         if errs:
             w.append("correspondence shards failed to evaluate: %s" % (errs[0][1][-400:],))
         ctx.report("c12:not-shown", "; ".join(w), {
             "broken_proof_log": (pr["log"] or "")[-2500:] if not pr["ok"] else "",
             "disagreeing_cases": [dict(recs_s[i], stream="s") for i in rs.failing[:6] if i < len(recs_s)]
-                                 + [dict(recs_w[i], stream="w") for i in rw_.failing[:6] if i < len(recs_w)],
-            "explain": "\n".join(x for x in (rs.explain, rw_.explain) if x)[-3000:], "torn_write_model_mismatches": not_prefix[:6],
+                                 + [dict(recs_w[i], stream="w") for i in rw_.failing[:6] if i < len(recs_w)]
+                                 + [recs_S[i] for i in rS.failing[:4] if i < len(recs_S)],
+            "explain": "\n".join(x[-1500:] for x in (rs.explain, rw_.explain, rS.explain) if x), "torn_write_model_mismatches": not_prefix[:6],
             "search": "every one of the %d prefixes loaded for real was refused (oracle: load raised)" % n_loads}, found_input=False)
 
 
